@@ -5,6 +5,7 @@ from xml.sax.saxutils import quoteattr
 from ..common import Result, Violation, run_driver, canon_hash, scratch
 from ..langgen import LangGen, lang_payload, jtxt
 from ..mhist import Impl, Gen, canon_obs
+from .. import genexec
 
 ASSUMPTIONS = [
     'the XML / zip layer: xml.etree, zipfile and the harness rendering of the abstract securiCAD document (objects with nested evidenceAttributes / evidenceDistribution / parameters, associations) are assumed and exercised through real archives',
@@ -69,14 +70,89 @@ def emit_scad_xml(m):
     lines.append('</com.foreseeti.kernalCAD:XMIObjectModel>')
     return '\n'.join(lines)
 
-def check_case(spec, ops, which, mo, rnd):
+# --------------------------------------------------------------------------------------------------------------------
+# the third column (notes/NOTES_genexec2_legneo.md): the GENERATED loaders (`Py/GenLegacy`, driver op `gen_legacy`) on the
+# very file the real loader read - what the two layers of the file boundary return for it (`json.loads` / `yaml.safe_load`
+# resp. zipfile + xml.etree), not a document recomputed from the history
+def pyj(x):
+    """a value of the JSON / YAML layer in the driver's tagged form (`GenXLeg.parsePyJ`); `None` inside = not expressible"""
+    if x is None or isinstance(x, (bool, str)): return x
+    if isinstance(x, int): return {'i': str(x)}
+    if isinstance(x, float): return {'f': repr(x)}
+    if isinstance(x, list): return [pyj(e) for e in x]
+    if isinstance(x, dict):
+        for k in x:
+            if isinstance(k, bool) or not isinstance(k, (str, int)): raise TypeError('key outside str / int')
+        return {'d': [[pyj(k), pyj(v)] for k, v in x.items()]}
+    raise TypeError(type(x).__name__)
+
+def read_layers(path, both=True):
+    """what `json.loads(f.read())` and `yaml.safe_load(f)` return for the file (or the class of what they raise)"""
+    import yaml
+    txt = open(path, 'r', encoding='utf-8').read()
+    out = {}
+    first = 'json' if path.endswith('.json') else 'yaml'
+    for k, f in (('json', json.loads), ('yaml', yaml.safe_load)):
+        if not both and k != first: continue
+        try: out[k] = pyj(f(txt))
+        except ValueError: out[k] = {'raises': 'ValueError'}          # json.JSONDecodeError
+        except Exception as e: out[k] = {'raises': type(e).__name__}
+    return out
+
+def read_eom(path):
+    """the parsed `.eom` member as the abstract archive of the prelude (`Legacy.ScadDoc`): objects with `int(id)` and the
+    (metaConcept, value) pairs of evidenceAttributes / evidenceDistribution / parameters[@value]; associations"""
+    import xml.etree.ElementTree as ET
+    with zipfile.ZipFile(path, 'r') as z:
+        root = ET.fromstring(z.read(next(filter(lambda x: x[-4:] == '.eom', z.namelist()))))
+    objs = []
+    for ch in root.iter('objects'):
+        defs = [[sub.attrib['metaConcept'], d.attrib['value']] for sub in ch.iter('evidenceAttributes')
+                for dist in sub.iter('evidenceDistribution') for d in dist.iter('parameters') if 'value' in d.attrib]
+        objs.append({'id': int(ch.attrib['id']), 'name': ch.attrib['name'], 'metaConcept': ch.attrib['metaConcept'], 'defenses': defs})
+    return {'objects': objs,
+            'associations': [{'sourceObject': int(c.attrib['sourceObject']), 'targetObject': int(c.attrib['targetObject']),
+                              'sourceProperty': c.attrib['sourceProperty'], 'targetProperty': c.attrib['targetProperty']} for c in root.iter('associations')]}
+
+ERR_NAMES = ('ValueError', 'LookupError', 'DuplicateModelAssociationError', 'ModelAssociationException', 'KeyError', 'AttributeError',
+             'AssertionError', 'RecursionError', 'ValidationError', 'TypeError')
+def err_class(e):
+    """the class of an exception in the vocabulary of the prelude (`LErr` / `PyM.PyErr`): the first listed class it is an
+    instance of; everything else (IndexError, OSError …) is `OtherError`"""
+    for c in type(e).__mro__:
+        if c.__name__ in ERR_NAMES: return c.__name__
+    return 'OtherError'
+
+def impl_result(got):
+    """what a real loader returned, in the form of the driver's answer"""
+    if got is None: return {'none': True}
+    im2 = Impl.__new__(Impl); im2.m = got
+    return {'loaded': Impl.obs(im2), 'name': got.name}
+
+def gen_same(ir, go):
+    """implementation result `ir` against the answer `go` of `gen_legacy`: outcome kind, error class, the model name and the
+    WHOLE canonical state (assets with defenses / extras / back-references, associations, attackers with names and entry
+    points, reserved ids / names, type index sizes, next id).  Returns None when equal, else what differs."""
+    kind = lambda r: 'loaded' if 'loaded' in r else 'none' if 'none' in r else 'error'
+    if kind(ir) != kind(go): return f'outcome: implementation {kind(ir)} {ir.get("error", "")}, generated {kind(go)} {go.get("error", "")}'
+    if 'error' in ir: return None if ir['error'] == go['error'] else f'exception class: implementation {ir["error"]}, generated {go["error"]}'
+    if 'none' in ir: return None
+    if ir['name'] != go['name']: return 'model name'
+    x, y = canon_obs(ir['loaded']), canon_obs(go['loaded'])
+    diff = [k for k in x if x[k] != y[k]]
+    return ('state: ' + ','.join(diff)) if diff else None
+
+def prepare_case(spec, ops, which, rnd):
+    """the real side of one case: history, files, the real loaders.  Returns the state `finish_case` needs; `st['gen']` is
+    the payload of the generated column (without `lang`), `st['impl']` what the real legacy loader returned / raised"""
     from maltoolbox.model import Model
     from maltoolbox.translators import updater, securicad
+    st = {'spec': spec, 'ops': ops, 'which': which, 'hand': True, 'gen': None, 'impl': None, 'v': None, 'note': None, 'both_layers': True}
     im = Impl(spec)
     for op in ops: im.step(op)
     m = im.m
     ids = [t.id for t in m.attackers]
-    if len(set(ids)) != len(ids): return None, 'skipped: duplicate attacker ids (KF-C07-1)'
+    if len(set(ids)) != len(ids): st['note'] = 'skipped: duplicate attacker ids (KF-C07-1)'; return st
     d = scratch()
     native_path = os.path.join(d, 'native.json'); m.save_to_file(native_path)
     ref = Model.load_from_file(native_path, im.fac)
@@ -98,7 +174,7 @@ def check_case(spec, ops, which, mo, rnd):
                     t['entry_points'] = {str(big(k)): v for k, v in t['entry_points'].items()}
                 renum = os.path.join(d, 'native_big.json'); json.dump(doc, open(renum, 'w'))
                 ref = Model.load_from_file(renum, im.fac)
-                mo = None
+                st['hand'] = False
             if rnd.random() < 0.5 and len(doc['assets']) >= 2:
                 # a hand-edited file: assets listed in another order, and (sometimes) two assets with the same name —
                 # both loaders resolve the clash in the order of the file.  The equivalent native file is edited alike.
@@ -110,37 +186,75 @@ def check_case(spec, ops, which, mo, rnd):
                 edited = os.path.join(d, 'native_edited.' + fmt)       # same file format: PyYAML lists keys sorted, JSON as given
                 save_dict_to_file(edited, doc)
                 ref = Model.load_from_file(edited, im.fac)
-                mo = None                          # the Lean side computes the document from the history, not from the edited file
+                st['hand'] = False                 # the Lean side computes the document from the history, not from the edited file
             save_dict_to_file(path, emit_old(doc, rnd.random() < 0.5))
+            try: st['gen'] = {'which': 'old', 'file': path, 'version': '0.0.39', **read_layers(path, both=st['both_layers'])}
+            except TypeError as e: st['note'] = f'generated column skipped: {e}'
             got = updater.load_model_from_older_version(path, im.fac, '0.0.39')
+            st['impl'] = impl_result(got)
             a, b = view(got, False), view(ref, False)
         else:
             path = os.path.join(d, 'model.sCAD')
             with zipfile.ZipFile(path, 'w') as z:
                 z.writestr('model.eom', emit_scad_xml(m)); z.writestr('meta.json', '{}')
+            st['gen'] = {'which': 'scad', 'file': path, 'eom': read_eom(path)}
             got = securicad.load_model_from_scad_archive(path, im.lg, im.fac)
+            st['impl'] = impl_result(got)
             if got is None: raise LookupError('loader returned None')
             a, b = view(got, True), view(ref, True)
     except Exception as e:
-        return Violation(what=f'the {which} loader fails on a model the native loader accepts: {type(e).__name__}: {str(e)[:100]}',
-                         fingerprint=f'C18:{which}-loader-raises:{type(e).__name__}', replay={'spec': spec, 'ops': ops, 'which': which}), None
+        if st['impl'] is None: st['impl'] = {'error': err_class(e)}
+        st['v'] = Violation(what=f'the {which} loader fails on a model the native loader accepts: {type(e).__name__}: {str(e)[:100]}',
+                            fingerprint=f'C18:{which}-loader-raises:{type(e).__name__}', replay={'spec': spec, 'ops': ops, 'which': which})
+        return st
     if a != b:
         diff = [k for k in a if a[k] != b[k]]
-        return Violation(what=f'the {which} loader and the native loader disagree on {diff}', fingerprint=f'C18:{which}:' + ','.join(diff),
-                         replay={'spec': spec, 'ops': ops, 'which': which, 'legacy': {k: a[k] for k in diff}, 'native': {k: b[k] for k in diff}}), None
-    if mo is not None:
-        if 'error' in mo or isinstance(mo.get('loaded'), str):
-            return Violation(what=f'Lean model of the {which} loader fails: {mo.get("error") or mo.get("loaded")}', fingerprint='C18:model-divergence',
-                             replay={'spec': spec, 'ops': ops, 'which': which}, no_failing_input=True), None
-        im2 = Impl.__new__(Impl); im2.m = got
-        x, y = canon_obs(Impl.obs(im2)), canon_obs(mo['loaded'])
-        if which == 'scad':            # attacker names cannot be expressed
-            for o in (x, y): o['attackers'] = [[t[0], t[2]] for t in o['attackers']]
-        for k in ('assets', 'associations', 'attackers'):
-            if x[k] != y[k]:
-                return Violation(what=f'implementation and Lean model of the {which} loader disagree on {k}', fingerprint='C18:model-divergence',
-                                 replay={'spec': spec, 'ops': ops, 'which': which, 'impl': x[k], 'model': y[k]}, no_failing_input=True), None
-    return None, None
+        st['v'] = Violation(what=f'the {which} loader and the native loader disagree on {diff}', fingerprint=f'C18:{which}:' + ','.join(diff),
+                            replay={'spec': spec, 'ops': ops, 'which': which, 'legacy': {k: a[k] for k in diff}, 'native': {k: b[k] for k in diff}})
+    return st
+
+def hand_diff(st, mo):
+    """the hand-written model of the loader against the implementation (as before the third column): None when they agree"""
+    which = st['which']
+    if 'error' in mo or isinstance(mo.get('loaded'), str):
+        return f'Lean model of the {which} loader fails: {mo.get("error") or mo.get("loaded")}', {}
+    # (the observation of the loaded model was taken in `prepare_case`: the real objects are not kept - 160 class factories
+    # alive at once make every `issubclass` of python_jsonschema_objects walk all their classes)
+    x, y = canon_obs(st['impl']['loaded']), canon_obs(mo['loaded'])
+    if which == 'scad':            # attacker names cannot be expressed
+        for o in (x, y): o['attackers'] = [[t[0], t[2]] for t in o['attackers']]
+    for k in ('assets', 'associations', 'attackers'):
+        if x[k] != y[k]:
+            return f'implementation and Lean model of the {which} loader disagree on {k}', {'impl': x[k], 'model': y[k]}
+    return None
+
+def finish_case(st, mo, go=None, res=None):
+    """oracle (legacy loader = native loader), then the hand model, then the generated code.  Returns (violation, note)."""
+    spec, ops, which = st['spec'], st['ops'], st['which']
+    if st['note'] and st['impl'] is None and st['v'] is None: return None, st['note']
+    if st['v'] is not None: return st['v'], None
+    if mo is not None and st['hand']:
+        d = hand_diff(st, mo)
+        if d is not None:
+            return Violation(what=d[0], fingerprint='C18:model-divergence',
+                             replay={'spec': spec, 'ops': ops, 'which': which, **d[1]}, no_failing_input=True), None
+    if go is not None:
+        rp = {'spec': spec, 'ops': ops, 'which': which, 'payload': st['gen']}
+        if 'error' in go: return genexec.driver_error('C18', go['error'], rp), None
+        g = go['model']
+        if 'skip' in g or g.get('error') == 'unmodelled':
+            if res: res.bump('generated_code_not_comparable:' + (g.get('skip') or 'unmodelled'))
+            return None, st['note']
+        if res: res.bump('generated_code_documents_compared')
+        d = gen_same(st['impl'], g)
+        if d is not None:
+            return genexec.divergence('C18', 'load_model_from_older_version' if which == 'old' else 'load_model_from_scad_archive',
+                                      f'on the {which} file of the case ({d})', {**rp, 'impl': st['impl'], 'generated': g}), None
+    return None, st['note']
+
+def check_case(spec, ops, which, mo, rnd):
+    st = prepare_case(spec, ops, which, rnd)
+    return finish_case(st, mo)
 
 def run(seed, tier, lean) -> Result:
     rnd = random.Random(seed)
@@ -156,11 +270,19 @@ def run(seed, tier, lean) -> Result:
         spec = LangGen(r, knobs={'dup_assoc_names': 0.4, 'reuse_fields': 0.5}).gen()
         ops = Gen(r, spec, WEIGHTS, explicit_attacker_ids=False, extras=False).gen(r.randint(4, 30))[:-1]
         cases.append((spec, ops, 'old' if i % 2 else 'scad', r))
-    model = run_driver([{'op': 'legacy', 'case': i, 'lang': lang_payload(s), 'ops': o, 'which': w} for i, (s, o, w, r) in enumerate(cases)]) if lean['build_ok'] else None
+    # the real side first (the generated loaders read the very files the real loaders read), then ONE driver batch for the
+    # hand-written model and the generated code, then the comparisons
+    sts = [prepare_case(spec, ops, which, r) for (spec, ops, which, r) in cases]
+    model = gen = None
+    if lean['build_ok']:
+        hand_p = [{'op': 'legacy', 'case': i, 'lang': lang_payload(s), 'ops': o, 'which': w} for i, (s, o, w, r) in enumerate(cases)]
+        gidx = [i for i, st in enumerate(sts) if st['gen'] is not None]
+        out = run_driver(hand_p + [{'op': 'gen_legacy', 'case': i, 'lang': hand_p[i]['lang'], **sts[i]['gen']} for i in gidx])
+        model, gen = out[:len(cases)], dict(zip(gidx, out[len(cases):]))
     for i, (spec, ops, which, r) in enumerate(cases):
         res.evaluations += 1
         mo = model[i].get('model') if model is not None else None
-        v, note = check_case(spec, ops, which, mo, r)
+        v, note = finish_case(sts[i], mo, gen.get(i) if gen is not None else None, res)
         res.bump(which)
         if note: res.bump(note)
         ks = [o['k'] for o in ops]
